@@ -722,6 +722,85 @@ def c12_r5(ctx, f):
 
 
 # ---------------------------------------------------------------------------
+# C12.R8 colour conversions by partial evaluation, every value of every channel
+# ---------------------------------------------------------------------------
+
+def c12_r8(ctx, f, rid="C12.R8"):
+    ctx.rule(rid, "colour conversions by partial evaluation: rgba2hex and Color::from([u8;4] / [u8;3] / &[u8] / Vec<u8>) give #rrggbb "
+                  "(two lower-case hex digits per channel, in order), plus aa exactly when alpha != 255, for every value of every channel")
+    from . import peval
+    from .fold import mk_int, TOP as _TOP
+    fn = f.fn("convert::rgba2hex")
+    targets = []
+    if fn is not None:
+        targets.append(("convert::rgba2hex", 4, "array", lambda v: v))
+    for path, n, kind in (("<convert::Color as std::convert::From<[u8; 4]>>::from", 4, "array"),
+                          ("<convert::Color as std::convert::From<[u8; 3]>>::from", 3, "array"),
+                          ("<convert::Color as std::convert::From<&[u8]>>::from", 4, "slice"),
+                          ("<convert::Color as std::convert::From<&[u8]>>::from", 3, "slice"),
+                          ("<convert::Color as std::convert::From<std::vec::Vec<u8>>>::from", 4, "vec")):
+        if f.fn(path) is not None:
+            targets.append((path, n, kind, None))
+    if not targets:
+        ctx.abstain(rid, "no colour conversion found")
+        return None
+    decided = True
+    for path, n, kind, _ in targets:
+        g = f.fn(path)
+        pe = peval.PEval(f, max_steps=20_000_000)
+        bad = {}
+        und = None
+        n_ok = 0
+        cases = []
+        for ch in range(n):
+            for base in ((0x12, 0xab, 0x07, 0xff), (0xf0, 0x05, 0xc3, 0x80)):
+                for v in range(256):
+                    c = list(base[:n])
+                    c[ch] = v
+                    cases.append(tuple(c))
+        for c in sorted(set(cases)):
+            arr = ("array", tuple(mk_int("u8", x) for x in c))
+            if kind == "array":
+                arg = arr
+            elif kind == "slice":
+                arg = ("ref", ("const", arr))
+            else:
+                arg = peval._vec_of(pe, arr[1])
+            pe.memo = {}
+            r = pe.call(path, [arg])
+            if r.kind == "diverge":
+                bad.setdefault("panics", []).append((c, r.why))
+                continue
+            v = r.value if r.kind == "ret" else _TOP
+            if v != _TOP and v[0] == "adt" and v[1] == "convert::Color" and v[4]:
+                v = v[4][0]
+            s_ = peval._pystr(pe, None, v) if v != _TOP and v[0] in ("string", "str") else None
+            if s_ is None:
+                und = r.why or "result is not a known string"
+                break
+            rgba = tuple(c) + ((255,) if n == 3 else ())
+            want = "#%02x%02x%02x" % rgba[:3] + ("%02x" % rgba[3] if rgba[3] != 255 else "")
+            if s_ != want:
+                k = "alpha" if s_[:7] == want[:7] else "digits"
+                bad.setdefault(k, []).append((c, (want, s_)))
+            else:
+                n_ok += 1
+        short = path.split("::")[-2] + "::" + path.split("::")[-1] if "From" in path else path
+        if und:
+            ctx.abstain(rid, "%s (%s of %d bytes) does not fold: %s" % (path, kind, n, und), where_fn(g))
+            decided = False
+            continue
+        for k, lst in sorted(bad.items()):
+            c0, info = lst[0]
+            ctx.fail(rid, "%s/%s%d/%s" % (path, kind, n, k), where_fn(g), path, "%s on %d colour(s), e.g. %s" % (k, len(lst), list(c0)),
+                     "the colour string is not #rrggbb[aa] of the channels", expected=info[0] if k != "panics" else "a colour string",
+                     found=info[1] if k != "panics" else info)
+        if n_ok:
+            ctx.ok(rid, "%s (%s, %d channels): %d colours" % (short, kind, n, n_ok), n=n_ok)
+    return decided
+
+
+# ---------------------------------------------------------------------------
 # C12.T1 / T2 shapes
 # ---------------------------------------------------------------------------
 
